@@ -194,3 +194,348 @@ pub fn k_memareatype_custom_noncanonical() {
     assert!((id == t) == (c == other));
 }
 // ---- END sized section
+
+// ---- BEGIN dst section
+// Engine K harnesses for the DYNAMICALLY SIZED parts of multiboot2/src/memory_map.rs:
+// MemoryMapTag (C04/C05/C07) and EFIMemoryMapTag / EFIMemoryAreaIter (C05/C07/C18).
+// Oracle: Multiboot2 spec
+//   3.6.8 "Memory map": u32 type = 6 @0, u32 size @4, u32 entry_size @8, u32 entry_version @12,
+//         then (size-16)/entry_size entries of 24 bytes (u64 base_addr, u64 length, u32 type, u32 reserved)
+//   3.6.17 "EFI memory map": u32 type = 17 @0, u32 size @4, u32 descriptor_size @8,
+//         u32 descriptor_version @12, then the EFI memory map from byte 16 up to size;
+//   UEFI spec EFI_MEMORY_DESCRIPTOR (version 1): u32 Type @0, (pad), u64 PhysicalStart @8,
+//         u64 VirtualStart @16, u64 NumberOfPages @24, u64 Attribute @32 (40 bytes, align 8).
+// (No `use` lines and only `dst_`-prefixed helpers in this section.)
+
+fn dst_round8(n: usize) -> usize {
+    (n + 7) / 8 * 8
+}
+fn dst_le32(b: &[u8], o: usize) -> u32 {
+    u32::from_le_bytes([b[o], b[o + 1], b[o + 2], b[o + 3]])
+}
+fn dst_le64(b: &[u8], o: usize) -> u64 {
+    u64::from_le_bytes([b[o], b[o + 1], b[o + 2], b[o + 3], b[o + 4], b[o + 5], b[o + 6], b[o + 7]])
+}
+fn dst_generic(b: &[u8]) -> &multiboot2_common::DynSizedStructure<TagHeader> {
+    multiboot2_common::DynSizedStructure::<TagHeader>::ref_from_slice(b).unwrap()
+}
+
+// ---- C04/C05 (a) MemoryMapTag: well-formed sizes 16, 40, 64 in a 72-byte
+// region (all bytes symbolic: the 8 bytes after the tag are the neighbour).
+#[kani::proof]
+#[kani::unwind(4)]
+pub fn k_mmap_extent() {
+    let bytes = multiboot2_common::test_utils::AlignedBytes::new(kani::any::<[u8; 72]>());
+    let b = &bytes.0;
+    kani::assume(dst_le32(b, 0) == 6);
+    let size = dst_le32(b, 4) as usize;
+    kani::assume(size >= 16 && size <= 64 && (size - 16) % 24 == 0);
+    kani::assume(dst_le32(b, 8) == 24);
+    let tag = dst_generic(&b[..dst_round8(size)]).cast::<MemoryMapTag>();
+    assert!(tag.header.typ == TagType::Mmap);
+    assert!(tag.header.size as usize == size);
+    assert!(tag.entry_size() == 24);
+    assert!(tag.entry_version() == dst_le32(b, 12));
+    let areas = tag.memory_areas();
+    let n = (size - 16) / 24;
+    assert!(areas.len() == n);
+    assert!(areas.as_ptr().cast::<u8>() == b[16..].as_ptr());
+    let mut i = 0;
+    while i < n {
+        let o = 16 + 24 * i;
+        assert!(areas[i].start_address() == dst_le64(b, o));
+        assert!(areas[i].size() == dst_le64(b, o + 8));
+        assert!(u32::from(areas[i].typ()) == dst_le32(b, o + 16));
+        i += 1;
+    }
+    kani::cover!(n == 2);
+    kani::cover!(n == 0);
+}
+
+// ---- C05 (b) MemoryMapTag: every declared size (any u32) in a 48-byte region:
+// a typed view is only produced when 16 <= size <= 48 and (size-16) % 24 == 0;
+// everything else is a controlled panic or Err(InvalidReportedTotalSize).
+#[kani::proof]
+pub fn k_mmap_size_any() {
+    let bytes = multiboot2_common::test_utils::AlignedBytes::new(kani::any::<[u8; 48]>());
+    let b = &bytes.0;
+    kani::assume(dst_le32(b, 0) == 6);
+    let size = dst_le32(b, 4) as usize;
+    match multiboot2_common::DynSizedStructure::<TagHeader>::ref_from_slice(&b[..]) {
+        Ok(generic) => {
+            let tag = generic.cast::<MemoryMapTag>();
+            assert!(size >= 16 && size <= 48 && (size - 16) % 24 == 0);
+            assert!(tag.areas.len() == (size - 16) / 24);
+            assert!(tag.areas.as_ptr().cast::<u8>() == b[16..].as_ptr());
+        }
+        Err(e) => {
+            assert!(size > 48);
+            assert!(e == multiboot2_common::MemoryError::InvalidReportedTotalSize);
+        }
+    }
+}
+
+// ---- C05 (b) MemoryMapTag::memory_areas(): any stored entry_size: the slice
+// of 24-byte entries is only handed out when entry_size == 24.
+#[kani::proof]
+pub fn k_mmap_entry_size_checked() {
+    let bytes = multiboot2_common::test_utils::AlignedBytes::new(kani::any::<[u8; 40]>());
+    let b = &bytes.0;
+    kani::assume(dst_le32(b, 0) == 6);
+    kani::assume(dst_le32(b, 4) == 40);
+    let tag = dst_generic(&b[..]).cast::<MemoryMapTag>();
+    assert!(tag.entry_size() == dst_le32(b, 8));
+    let areas = tag.memory_areas();
+    assert!(dst_le32(b, 8) == 24);
+    assert!(areas.len() == 1);
+}
+
+// ---- C07 MemoryMapTag::new: 0..=2 areas with symbolic fields.
+#[kani::proof]
+#[kani::unwind(8)]
+pub fn k_mmap_new() {
+    let (b0, l0, t0, b1, l1, t1): (u64, u64, u32, u64, u64, u32) = kani::any();
+    let all = [MemoryArea::new(b0, l0, t0), MemoryArea::new(b1, l1, t1)];
+    let n: usize = kani::any();
+    kani::assume(n <= 2);
+    let tag = MemoryMapTag::new(&all[..n]);
+    let want = 16 + 24 * n;
+    assert!(u32::from(tag.header.typ) == 6);
+    assert!(tag.header.typ == MemoryMapTag::ID);
+    assert!(tag.header.size as usize == want);
+    assert!(tag.entry_size() == 24 && tag.entry_version() == 0);
+    let ab = tag.as_bytes();
+    let img: &[u8] = *ab;
+    assert!(img.len() == dst_round8(want));
+    assert!(img.as_ptr() as usize % 8 == 0);
+    assert!(dst_le32(img, 0) == 6);
+    assert!(dst_le32(img, 4) as usize == want);
+    assert!(dst_le32(img, 8) == 24);
+    assert!(dst_le32(img, 12) == 0);
+    if n >= 1 {
+        assert!(dst_le64(img, 16) == b0 && dst_le64(img, 24) == l0);
+        assert!(dst_le32(img, 32) == t0 && dst_le32(img, 36) == 0);
+    }
+    if n == 2 {
+        assert!(dst_le64(img, 40) == b1 && dst_le64(img, 48) == l1);
+        assert!(dst_le32(img, 56) == t1 && dst_le32(img, 60) == 0);
+    }
+    let areas = tag.memory_areas();
+    assert!(areas.len() == n);
+    if n >= 1 {
+        assert!(areas[0] == all[0]);
+    }
+    if n == 2 {
+        assert!(areas[1] == all[1]);
+    }
+    kani::cover!(n == 2);
+    kani::cover!(n == 0);
+}
+
+// ---- C05 (a) EFIMemoryMapTag: extent of the map bytes for every declared size
+// 16..=40 in a 48-byte region.
+#[kani::proof]
+pub fn k_efimmap_extent() {
+    let bytes = multiboot2_common::test_utils::AlignedBytes::new(kani::any::<[u8; 48]>());
+    let b = &bytes.0;
+    kani::assume(dst_le32(b, 0) == 17);
+    let size = dst_le32(b, 4) as usize;
+    kani::assume(size >= 16 && size <= 40);
+    let tag = dst_generic(&b[..dst_round8(size)]).cast::<EFIMemoryMapTag>();
+    assert!(tag.header.typ == TagType::EfiMmap);
+    assert!(tag.header.size as usize == size);
+    assert!(tag.desc_size == dst_le32(b, 8));
+    assert!(tag.desc_version == dst_le32(b, 12));
+    assert!(tag.memory_map.as_ptr() == b[16..].as_ptr());
+    assert!(tag.memory_map.len() == size - 16);
+    kani::cover!(size == 29);
+    kani::cover!(size == 16);
+}
+
+// ---- C05 (b) EFIMemoryMapTag: every declared size (any u32), 24-byte region.
+#[kani::proof]
+pub fn k_efimmap_size_any() {
+    let bytes = multiboot2_common::test_utils::AlignedBytes::new(kani::any::<[u8; 24]>());
+    let b = &bytes.0;
+    kani::assume(dst_le32(b, 0) == 17);
+    let size = dst_le32(b, 4) as usize;
+    match multiboot2_common::DynSizedStructure::<TagHeader>::ref_from_slice(&b[..]) {
+        Ok(generic) => {
+            let tag = generic.cast::<EFIMemoryMapTag>();
+            assert!(size >= 16 && size <= 24);
+            assert!(tag.memory_map.as_ptr() == b[16..].as_ptr());
+            assert!(tag.memory_map.len() == size - 16);
+        }
+        Err(e) => {
+            assert!(size > 24);
+            assert!(e == multiboot2_common::MemoryError::InvalidReportedTotalSize);
+        }
+    }
+}
+
+// ---- C07 EFIMemoryMapTag::new_from_map: all (desc_size != 0, desc_version),
+// map bytes of symbolic length 0..=9 (every padding residue).
+#[kani::proof]
+#[kani::unwind(12)]
+pub fn k_efimmap_new_from_map() {
+    let raw: [u8; 9] = kani::any();
+    let len: usize = kani::any();
+    kani::assume(len <= 9);
+    let (ds, dv): (u32, u32) = kani::any();
+    kani::assume(ds != 0);
+    let tag = EFIMemoryMapTag::new_from_map(ds, dv, &raw[..len]);
+    let want = 16 + len;
+    assert!(u32::from(tag.header.typ) == 17);
+    assert!(tag.header.typ == EFIMemoryMapTag::ID);
+    assert!(tag.header.size as usize == want);
+    assert!(tag.desc_size == ds && tag.desc_version == dv);
+    assert!(tag.memory_map.len() == len);
+    let ab = tag.as_bytes();
+    let img: &[u8] = *ab;
+    assert!(img.len() == dst_round8(want));
+    assert!(img.as_ptr() as usize % 8 == 0);
+    assert!(dst_le32(img, 0) == 17);
+    assert!(dst_le32(img, 4) as usize == want);
+    assert!(dst_le32(img, 8) == ds);
+    assert!(dst_le32(img, 12) == dv);
+    let mut i = 0;
+    while i < len {
+        assert!(img[16 + i] == raw[i]);
+        i += 1;
+    }
+    kani::cover!(len == 9);
+    kani::cover!(len == 0);
+}
+
+// ---- C07 (b): new_from_map documents desc_size != 0.
+#[kani::proof]
+#[kani::unwind(6)]
+pub fn k_efimmap_new_rejects_zero_desc_size() {
+    let (ds, dv): (u32, u32) = kani::any();
+    let _tag = EFIMemoryMapTag::new_from_map(ds, dv, &[]);
+    assert!(ds != 0);
+}
+
+// ---- C07/C18 EFIMemoryMapTag::new_from_descs: 0..=2 descriptors with symbolic
+// fields: desc_size 40, version 1, each descriptor encoded per UEFI (bytes 4..8
+// of a descriptor are compiler padding and not compared); iteration reads the
+// descriptors back.
+#[kani::proof]
+#[kani::unwind(8)]
+pub fn k_efimmap_new_from_descs() {
+    let (t0, p0, v0, c0, a0): (u32, u64, u64, u64, u64) = kani::any();
+    let (t1, p1, v1, c1, a1): (u32, u64, u64, u64, u64) = kani::any();
+    let all = [
+        EFIMemoryDesc { ty: EFIMemoryAreaType(t0), phys_start: p0, virt_start: v0, page_count: c0, att: EFIMemoryAttribute::from_bits_retain(a0) },
+        EFIMemoryDesc { ty: EFIMemoryAreaType(t1), phys_start: p1, virt_start: v1, page_count: c1, att: EFIMemoryAttribute::from_bits_retain(a1) },
+    ];
+    let n: usize = kani::any();
+    kani::assume(n <= 2);
+    let tag = EFIMemoryMapTag::new_from_descs(&all[..n]);
+    let want = 16 + 40 * n;
+    assert!(u32::from(tag.header.typ) == 17);
+    assert!(tag.header.size as usize == want);
+    let ab = tag.as_bytes();
+    let img: &[u8] = *ab;
+    assert!(img.len() == dst_round8(want));
+    assert!(dst_le32(img, 0) == 17 && dst_le32(img, 4) as usize == want);
+    assert!(dst_le32(img, 8) == 40 && dst_le32(img, 12) == 1);
+    if n >= 1 {
+        assert!(dst_le32(img, 16) == t0 && dst_le64(img, 24) == p0 && dst_le64(img, 32) == v0);
+        assert!(dst_le64(img, 40) == c0 && dst_le64(img, 48) == a0);
+    }
+    if n == 2 {
+        assert!(dst_le32(img, 56) == t1 && dst_le64(img, 64) == p1 && dst_le64(img, 72) == v1);
+        assert!(dst_le64(img, 80) == c1 && dst_le64(img, 88) == a1);
+    }
+    let mut it = tag.memory_areas();
+    assert!(it.len() == n);
+    if n >= 1 {
+        let d = it.next().unwrap();
+        assert!(d.ty.0 == t0 && d.phys_start == p0 && d.virt_start == v0 && d.page_count == c0 && d.att.bits() == a0);
+    }
+    if n == 2 {
+        let d = it.next().unwrap();
+        assert!(d.ty.0 == t1 && d.phys_start == p1 && d.virt_start == v1 && d.page_count == c1 && d.att.bits() == a1);
+    }
+    assert!(it.next().is_none());
+    kani::cover!(n == 2);
+}
+
+// ---- C18 (a): version 1, descriptor size d in {40, 48, 56, 64}, map length
+// L = k * d <= 128 (k = 0..=3 for d = 40, 0..=2 otherwise), all map bytes
+// symbolic (152-byte region incl. 8 neighbour bytes): exactly k descriptors,
+// the i-th AT map offset i*d, decoded per UEFI; len() == items still to come
+// after every next().
+#[kani::proof]
+#[kani::unwind(6)]
+pub fn k_efi_iter_wellformed() {
+    let bytes = multiboot2_common::test_utils::AlignedBytes::new(kani::any::<[u8; 152]>());
+    let b = &bytes.0;
+    kani::assume(dst_le32(b, 0) == 17);
+    let size = dst_le32(b, 4) as usize;
+    let d = dst_le32(b, 8) as usize;
+    kani::assume(dst_le32(b, 12) == 1);
+    kani::assume(d >= 40 && d <= 64 && d % 8 == 0);
+    kani::assume(size >= 16 && size <= 16 + 128);
+    let l = size - 16;
+    kani::assume(l % d == 0);
+    let k = l / d;
+    let tag = dst_generic(&b[..dst_round8(size)]).cast::<EFIMemoryMapTag>();
+    let mut it = tag.memory_areas();
+    let mut i = 0;
+    while i < k {
+        assert!(it.len() == k - i);
+        let desc = it.next().unwrap();
+        let o = 16 + i * d;
+        assert!(core::ptr::addr_of!(*desc).cast::<u8>() == b[o..].as_ptr());
+        assert!(desc.ty.0 == dst_le32(b, o));
+        assert!(desc.phys_start == dst_le64(b, o + 8));
+        assert!(desc.virt_start == dst_le64(b, o + 16));
+        assert!(desc.page_count == dst_le64(b, o + 24));
+        assert!(desc.att.bits() == dst_le64(b, o + 32));
+        i += 1;
+    }
+    assert!(it.len() == 0);
+    assert!(it.next().is_none());
+    assert!(it.len() == 0);
+    kani::cover!(k == 3 && d == 40);
+    kani::cover!(k == 2 && d == 64);
+    kani::cover!(k == 0);
+}
+
+// ---- C18 (b): ANY version (u32), ANY descriptor size (u32), any declared
+// size 16..=144 (map length 0..=128): memory_areas() only returns for
+// version 1, d >= 40, d % 8 == 0, L % d == 0 (everything else: controlled
+// panic); whatever is then iterated lies inside the tag, is 8-aligned, and
+// len() counts down.
+#[kani::proof]
+#[kani::unwind(6)]
+pub fn k_efi_iter_any() {
+    let bytes = multiboot2_common::test_utils::AlignedBytes::new(kani::any::<[u8; 152]>());
+    let b = &bytes.0;
+    kani::assume(dst_le32(b, 0) == 17);
+    let size = dst_le32(b, 4) as usize;
+    let d = dst_le32(b, 8) as usize;
+    let ver = dst_le32(b, 12);
+    kani::assume(size >= 16 && size <= 16 + 128);
+    let l = size - 16;
+    let tag = dst_generic(&b[..dst_round8(size)]).cast::<EFIMemoryMapTag>();
+    let mut it = tag.memory_areas();
+    assert!(ver == 1 && d >= 40 && d % 8 == 0 && l % d == 0);
+    let k = l / d;
+    let mut i = 0;
+    let mut left = it.len();
+    assert!(left == k);
+    while let Some(desc) = it.next() {
+        let off = core::ptr::addr_of!(*desc).cast::<u8>() as usize - b.as_ptr() as usize;
+        assert!(off == 16 + i * d);
+        assert!(off % 8 == 0);
+        assert!(off + 40 <= size);
+        left -= 1;
+        assert!(it.len() == left);
+        i += 1;
+    }
+    assert!(i == k);
+}
+// ---- END dst section
